@@ -7,6 +7,7 @@ import Proofs.EffortGlobal
 import Proofs.TeamEffort
 import Proofs.OneSet
 import Proofs.TeamSame
+import Proofs.EffortAlt
 import Proofs.WFCheck
 /-!
 C03 — a scheduled task receives exactly its effort.
@@ -321,5 +322,21 @@ theorem team_same_instants (e : Env) (wf : WF e) (t : Nat) (sel : List Nat) (hel
     ∀ r ∈ sel, ∀ r' ∈ sel, ∀ i,
       usageOf ((runScenario e).led.get r i).usage t = usageOf ((runScenario e).led.get r' i).usage t :=
   runScenario_teamsSame e wf t sel hel
+
+/-! ### effort with an alternative, end to end -/
+
+/-- **C03, effort clause, tasks with an alternative** (`Proofs/EffortAlt`): after scheduling ANY well-formed project, every
+    effort task with one primary and one alternative resource that is reported as scheduled holds, on ONE of the two — the one
+    `_selectBestResources` chose at its first slot — entries in distinct slots and nowhere else on it, whose seconds weighted by
+    THAT resource's efficiency add up to exactly the requested effort (and by `bookings_on_one_candidate_set` nothing on the
+    other). -/
+theorem effort_exact_with_alternative (e : Env) (wf : WF e) (t r1 r2 : Nat) (hel : EligAlt e t r1 r2)
+    (hs : ((runScenario e).tst t).scheduled = true) :
+    ∃ r, (r = r1 ∨ r = r2) ∧ ∃ vis : List Int, vis.Nodup ∧
+      (∀ i, i ∉ vis → usageOf ((runScenario e).led.get r i).usage t = none) ∧
+      sumOver (runScenario e).led r t vis / 3600 * (e.resD r).eff = (e.taskD t).effort := by
+  obtain ⟨r, vis, hr, hv⟩ := runScenario_effort_exact_alt e wf t r1 r2 hel
+    (runScenario_scheduled_done e t ⟨hel.leaf, hel.effort, hel.nomile⟩ hs)
+  exact ⟨r, hr, vis, hv⟩
 
 end SP.C03
